@@ -510,8 +510,21 @@ func runReplay(path string) int {
 	if fn, ok := replayers[head.Engine]; ok {
 		return fn(v.Prop, v.Diag, v.Replay, path)
 	}
-	fatalf("no replayer for engine %q", head.Engine)
-	return 2
+	// Engines E2–E5: the recorded case (history / schedule / fault / operation sequence) is
+	// re-executed by running the property's check restricted to that case; the explorer's
+	// other cases are still enumerated but only this one is judged.
+	var full struct {
+		Case string `json:"case"`
+	}
+	json.Unmarshal(b, &full)
+	os.Setenv("VCHECK_REPLAY_CASE", full.Case)
+	os.Setenv("VCHECK_REPLAY_DIAG", v.Diag)
+	os.Setenv("VCHECK_NO_EVIDENCE", "1")
+	code := runCheck(v.Prop, "quick")
+	if code == 0 {
+		fmt.Println("  not reproduced on the current tree")
+	}
+	return code
 }
 
 var replayers = map[string]func(prop, diag string, payload json.RawMessage, path string) int{}
